@@ -216,7 +216,7 @@ pub fn run(args: &Args, r: &mut Report) {
     ]);
     r.assume("ping-only requests are outside the statement (the mock asserts that an app without updatecheck carries an event)");
     let miri = args.layer == "miri";
-    let n = if miri { 4 } else { args.budget(4_000, 100_000) };
+    let n = if miri { 4 } else { args.budget(16_000, 200_000) };
     // ---- (1) + (3)
     for i in 0..n {
         if args.skip(i) {
@@ -357,7 +357,7 @@ pub fn run(args: &Args, r: &mut Report) {
         }
     }
     // ---- (2) the state machine against the mock
-    let nsm = if miri { 1 } else { args.budget(300, 8_000) };
+    let nsm = if miri { 1 } else { args.budget(1_500, 16_000) };
     for j in 0..nsm {
         let i = 40_000_000 + j;
         if args.skip(i) {
